@@ -117,7 +117,18 @@ def _mutate(obj, rng, k: int) -> None:
     elif isinstance(obj, Container):
         # existing parts only: for a path-backed container get_parts() lists the archive on disk
         # (a documented diagnostic outside the listed properties), so new names would not be observable alike
-        obj.set_part(rng.choice(["content.xml", "styles.xml", "meta.xml"]), f"<x>{k}</x>".encode())
+        names = sorted(n for n in obj.get_parts() if "/" in n and not n.endswith("/") and not n.startswith("META-INF"))
+        live = []
+        for n in names:
+            try:
+                if obj.get_part(n) is not None:
+                    live.append(n)
+            except Exception:  # noqa: BLE001 - already deleted
+                continue
+        if live and rng.random() < 0.35:
+            obj.del_part(rng.choice(live))      # a deletion, before or after the clone is taken
+        else:
+            obj.set_part(rng.choice(["content.xml", "styles.xml", "meta.xml"]), f"<x>{k}</x>".encode())
     elif isinstance(obj, Table):
         from .table_driver import rand_op
 
